@@ -422,6 +422,6 @@ func init() {
 		Rule: "interference: for each program of a pool covering every randomness-reaching construct (all dice families, nested/implicit-sides dice, dice inside functions, computed values, DefaultDiceSideExpr, templates, loops, shuffle/rand/randSize, st) x seeds: baseline on a seeded context; the process-wide generators re-seeded 3 ways; and EVERY placement of <= 2 (thorough: 3 for short programs) interfering actions (unseeded VM rolling, another seeded VM rolling, re-seeding of both process-wide generators twice, reading seeds / drawing from the global x/exp/rand) at every instruction boundary of every sub-VM depth (choice DFS over VerifStep slots): value, detail text, st callbacks, draw count and final generator state must equal the baseline, and VerifRoll must report the context's own generator for every draw. lifecycle: a used context that is given new seed bytes and re-initialised must roll like a fresh one; a captured state held while the context keeps running must stay intact (and the caller's seed bytes too) and still resume identically. resume: for every statement list of <=3 dice-using statements and every split, the generator state captured after the prefix and installed in a fresh context with deep-copied variables must continue identically. Non-trivial = at least one die drawn.",
 		Enumerate: c06Enumerate,
 		Run:       c06Run,
-		Budget:    map[string]time.Duration{"quick": 170 * time.Second, "thorough": 40 * time.Minute},
+		Budget:    map[string]time.Duration{"quick": 400 * time.Second, "thorough": 40 * time.Minute},
 	})
 }
